@@ -201,8 +201,9 @@ pub fn compare(a: &Outcome, b: &Outcome, rep: &mut CaseReport, pid: &str, label_
                 // cumulative notes (finding F5) whose never-consulted surplus depends on which
                 // original commits a mode hands it; that surplus is counted, not compared.
                 let restrict = |n: &BTreeSet<(String, String, u32)>| -> BTreeSet<(String, String, u32)> {
+                    let weak = |p: &String, l: &u32| a.weak_note_lines.contains(&(c.clone(), p.clone(), *l)) || b.weak_note_lines.contains(&(c.clone(), p.clone(), *l));
                     match a.added.get(c) {
-                        Some(added) => n.iter().filter(|(p, _, l)| added.get(p).map(|s| s.contains(l)).unwrap_or(false)).cloned().collect(),
+                        Some(added) => n.iter().filter(|(p, _, l)| added.get(p).map(|s| s.contains(l)).unwrap_or(false) && !weak(p, l)).cloned().collect(),
                         None => n.clone(),
                     }
                 };
@@ -251,8 +252,17 @@ pub fn compare(a: &Outcome, b: &Outcome, rep: &mut CaseReport, pid: &str, label_
     }
     let keys: BTreeSet<&String> = a.blames.keys().chain(b.blames.keys()).collect();
     for k in keys {
-        let x = a.blames.get(k);
-        let y = b.blames.get(k);
+        // lines that admit more than one answer (white space re-touched across commits -
+        // observation O1 -, chosen in a conflict resolution) are not part of the comparison
+        let strip = |o: &Outcome, m: Option<&BTreeMap<u32, String>>| -> Option<BTreeMap<u32, String>> {
+            m.map(|m| m.iter().filter(|(l, _)| !o.weak_blame_lines.contains(&(k.clone(), **l)) && !a.weak_blame_lines.contains(&(k.clone(), **l))).map(|(l, h)| (*l, h.clone())).collect())
+        };
+        let (xs, ys) = (strip(a, a.blames.get(k)), strip(b, b.blames.get(k)));
+        if a.blames.get(k) != b.blames.get(k) && xs == ys {
+            rep.count("blame_differences_confined_to_lines_with_more_than_one_admissible_author", 1);
+        }
+        let x = xs.as_ref();
+        let y = ys.as_ref();
         if x != y {
             rep.violate(
                 sig("blame-differs"),
